@@ -3,7 +3,7 @@ import sys, os, argparse, importlib, traceback
 sys.path.insert(0, os.path.dirname(os.path.abspath(__file__)))
 import core
 
-MODULES = {"C04": "c_alloc", "C12": "c_alloc", "C13": "c_bufops"}
+MODULES = {"C04": "c_alloc", "C12": "c_alloc", "C13": "c_bufops", "C14": "c_topo"}
 
 
 def main():
